@@ -17,7 +17,7 @@ RULE = (
     "Non-trivial = >= 2 blocks, or a block within +-2 of the limit, or an oversize entry; distinct by case hash."
 )
 ASSUMPTIONS = ["nothing is demanded about WHICH error is raised when a block cannot be framed in one length byte"]
-REQUIRED_CLASSES = ["blocks>=2", "block.size=117", "block.size=116", "entry.would-make-118", "oversize.first", "oversize.middle", "oversize.last", "delkey", "delval", "extra-blocks", "extra-as=generator", "extra-as=iterator",
+REQUIRED_CLASSES = ["blocks>=2", "block.size=117", "block.size=116", "entry.would-make-118", "oversize.first", "oversize.middle", "oversize.last", "delkey", "delkey.with-bytes-content", "delval", "extra-blocks", "extra-as=generator", "extra-as=iterator",
                     "unframeable"]
 
 LIMIT = 117
@@ -37,6 +37,8 @@ def check(case, rec):
     n_del = len(entries) - len(sets_sorted)
     if any(e[1] is None for e in entries):
         rec.cls("delkey")
+    if any(e[1] is None and e[2] is not None for e in entries):
+        rec.cls("delkey.with-bytes-content")
     if any(e[1] is not None and e[2] is None for e in entries):
         rec.cls("delval")
     if oversize:
